@@ -428,10 +428,13 @@ def monitor_completion_has_execution(w: World) -> tuple[str, Any] | None:
     task without running it.)"""
     names = {r["id"]: (r["stage_id"], r["name"]) for r in w.q("SELECT id, stage_id, name FROM task_executions")}
     refs = {i: r for r, i in w.refs.items()}
+    own_stages = {r["id"] for r in w.q("SELECT id FROM stage_executions WHERE execution_id = ?", w.workflow_id)}
     last_running: dict[str, int] = {}
     for row in w.audit():
         if row["tbl"] != "task":
             continue
+        if names.get(row["id"], (None, None))[0] not in own_stages:
+            continue  # a task of another execution in the same database (noise / twin)
         if row["new"] == "RUNNING":
             last_running[row["id"]] = row["seq"]
         elif row["new"] in ("SUCCEEDED", "FAILED_CONTINUE", "TERMINAL", "STOPPED") and (row["ctx"] or "") == "CompleteTask":
@@ -679,6 +682,7 @@ def schedule_run(
     hold_idx: Any = None,
     hold_for: Any = None,
     inject2_when_quiet: bool = False,
+    twin: str | None = None,
 ) -> bool:
     """One worker; at choice point i the message delivered next is the choices[i]-th of the
     currently deliverable ones (at most ``fanout`` candidates), left un-acked if noack[i]; an
@@ -688,12 +692,18 @@ def schedule_run(
         with hx.native():
             if not isinstance(workload, str):
                 workload = workload()  # a workload chosen by symbolic parameters, decoded inside this path
+            if twin is not None and ref_pre is None:
+                # a second live execution (workload ``twin``) runs in the same database, in the reference run as well
+                ref_pre = lambda w_: w_.submit_twin(WORKLOADS[twin]())  # noqa: E731
+                ref_tag = ref_tag + "+twin:" + twin
             ref = reference(workload, events, pre=ref_pre, tag=ref_tag) if compare != "none" else None
             w = World(events=events, lock_seconds=lock_seconds)
             try:
                 wf = WORKLOADS[workload]()
                 spec = spec_of(wf)
                 w.submit(wf)
+                if twin is not None:
+                    w.submit_twin(WORKLOADS[twin]())
                 if setup is not None:
                     setup(w)
                 trace: list[Any] = []
@@ -1377,6 +1387,10 @@ def make_post_replay(q_sym: Any, p_sym: Any) -> Callable[[World, dict[str, Any],
         if full["status"] != snap["workflow"] and not (full["status"] in (None, "RUNNING") and snap["workflow"] in ("RUNNING", "NOT_STARTED")):
             return ("replay/workflow_status_differs/%s_vs_%s" % (full["status"], snap["workflow"]), {"replayed": full["status"], "stored": snap["workflow"]})
         durable_stage = {v["id"]: v["status"] for v in snap["stages"].values()}
+        foreign = {r["id"] for r in w.q("SELECT id FROM stage_executions WHERE execution_id != ?", wid)}
+        for sid in full["stages"]:
+            if sid in foreign:
+                return ("replay/stage_of_another_execution_in_this_log", {"stage": sid})
         for sid, st in full["stages"].items():
             if sid in marked or sid not in durable_stage:
                 continue
@@ -1451,9 +1465,9 @@ def make_post_replay(q_sym: Any, p_sym: Any) -> Callable[[World, dict[str, Any],
 
 
 def replay_run(workload: str, choices: list[Any], q_sym: Any, p_sym: Any, inject_at: Any = None, inject: Callable[[World], None] | None = None,
-               window_after_inject: bool = False) -> bool:
+               window_after_inject: bool = False, twin: str | None = None) -> bool:
     return schedule_run("C12", workload, choices, compare="none", events=True, post=make_post_replay(q_sym, p_sym), inject_at=inject_at, inject=inject,
-                        window_after_inject=window_after_inject)
+                        window_after_inject=window_after_inject, twin=twin)
 
 
 # ----------------------------------------------------------------------------------------------- C13 events + state
